@@ -85,6 +85,8 @@ def program_strategy(kind, max_steps, allow=None):
         steps.append(restore_strategy())
     if 'reopen' in allow:
         steps.append(st.tuples(st.just('reopen'), st.booleans()).map(list))
+    if 'pack' in allow:
+        steps.append(st.tuples(st.just('pack'), st.integers(0, 12), st.sampled_from([0, 0, 1])).map(list))
     if 'clock' in allow:
         steps.append(st.tuples(st.just('clock'), st.sampled_from(['stall', 'back', 'fwd']),
                                st.integers(1, 100)).map(list))
@@ -247,6 +249,40 @@ class StorageRunner:
                 self.clock.advance(float(op[2]) * 3600)
         elif k == 'new_oid':
             self.alloc()
+        elif k == 'pack':
+            self.do_pack(op[1], op[2])
+
+    def pack_time(self, k):
+        """a time strictly between two transactions (or before the first / after the last)"""
+        from persistent.TimeStamp import TimeStamp
+        tids = self.model.tids()
+        if not tids:
+            return self.clock.now
+        k = k % (len(tids) + 1)
+        if k == 0:
+            return TimeStamp(tids[0]).timeTime() - 0.5
+        return TimeStamp(tids[k - 1]).timeTime() + 0.001
+
+    def do_pack(self, k, gc):
+        from ZODB.FileStorage.FileStorage import FileStorageError
+        from ZODB.serialize import referencesf
+        from ZODB.FileStorage.fspack import PackError
+        t = self.pack_time(k)
+        self.packed = True
+        if Z64 not in self.model.oids() or self.model.current(Z64)[1] is None:
+            gc = False      # garbage collection presupposes a root object
+        try:
+            self.storage.pack(t, referencesf, gc=bool(gc))
+            self.labels.add('pack-gc' if gc else 'pack')
+        except FileStorageError:
+            self.labels.add('pack-refused')
+        except PackError:
+            # e.g. gc=False and an undo record after the pack time pointing to a non-current
+            # revision before it: the pack is refused, the database stays as it was
+            self.labels.add('pack-failed')
+        except ValueError:
+            self.labels.add('pack-refused')      # MappingStorage: already packed later
+        self.clock.advance(1.0)
 
     def alloc(self):
         oid = self.storage.new_oid()
@@ -285,6 +321,11 @@ class StorageRunner:
         self.abort_error = None
         try:
             self._txn_body(t, user, desc, ext, meta, recs, end)
+        except self.lenient_errors() as e:
+            # after a pack the history model no longer predicts refusals (differential checks)
+            self.labels.add('post-pack-refusal')
+            if not self.aborting:
+                s.tpc_abort(t)
         except self.injected as e:
             self.last_fault = e
             self.labels.add('fault-in-finish' if self.in_finish else 'fault-before-finish')
@@ -298,6 +339,14 @@ class StorageRunner:
             except self.injected as e2:
                 self.abort_error = e2
                 self.labels.add('abort-raised')
+
+    packed = False
+
+    def lenient_errors(self):
+        if not self.packed:
+            return ()
+        from ZODB.POSException import ConflictError, POSKeyError, UndoError
+        return (ConflictError, POSKeyError, UndoError)
 
     def _txn_body(self, t, user, desc, ext, meta, recs, end):
         from ZODB.FileStorage.FileStorage import FileStorageError
@@ -384,13 +433,13 @@ class StorageRunner:
                 try:
                     s.undo(tid64, t)
                 except UndoError as e:
-                    if verdict == 'ok':
+                    if verdict == 'ok' and not self.packed:
                         self.fail('undo', 'refused', 'undo of %r refused (%s) but model says it applies'
                                   % (target.tid, e))
                     self.labels.add('undo-refused')
                     failed = True
                     break
-                if verdict == 'error':
+                if verdict == 'error' and not self.packed:
                     self.fail('undo', 'accepted', 'undo of %r accepted but model says UndoError'
                               % (target.tid,))
                     failed = True
@@ -456,7 +505,8 @@ class StorageRunner:
         seen = set()
         for r in recs:
             if r[0] == 'new' or not self.oids:
-                oid = p64(0x100 + (r[1] if r[0] == 'new' else 7))
+                v = r[1] if r[0] == 'new' else 7
+                oid = p64(((v % 5) << 16) + 0x100 + (v >> 3))    # several index buckets
                 if oid in seen or oid in self.model.oids():
                     continue
                 data = records.make_record(self.new_uid(), pad=r[2] if r[0] == 'new' else 0)
